@@ -13,6 +13,7 @@ import ASV.Proofs.Parser.SubstRule
 import ASV.Proofs.Parser.FuelTop
 import ASV.Proofs.Parser.Reprint11
 import ASV.Proofs.Rulesets
+import ASV.Proofs.Parser.FilePP
 namespace ASV.C02
 open ASV ASV.Rules ASV.Parser ASV.Grammar ASV.Layout ASV.Reprint
 
@@ -155,6 +156,40 @@ theorem rule_parsed_as_denoted (cfg : Cfg) (name cat : String) (cutoffKb nbhKb :
 
 /-- … and the main loop then scales them by the multipliers: `int(kb * 1000 * p/q)` -/
 theorem distances_scaled (kb : Nat) (mul : Nat × Nat) : scale (kb * 1000) mul = distance kb mul := rfl
+
+/-- the same for a whole alias-free file of one or more written rules, each with an optional
+    `SUPERIORS` section, under any multipliers: `Parser.__init__` on the file's tokens stores exactly
+    the rules the grammar denotes, in order — distances `int(kb * 1000 * multiplier)`, superiors the
+    declared ones closed over the superiors of each of them (`closeSup`), conditions the objects of
+    the syntax tree.  `srcsOk` is what the text must satisfy to be legal: known category and
+    profiles, a name not used before, operands not repeated, something positive, superiors distinct
+    and defined earlier.  (No fuel hypothesis: the model's own budget suffices.) -/
+theorem file_parsed_as_denoted (cfg : Cfg) (rs : List RuleSrc) (hne : rs ≠ [])
+    (hok : srcsOk cfg [] rs = true) :
+    parseTokens cfg [] [] (rs.flatMap ruleSrcToks) = .ok (denote cfg [] rs, []) :=
+  parseTokens_file cfg rs hne hok
+
+/-- … and so for `create_rules` on any text the tokeniser reads as those tokens (any layout and
+    comments, by `tokenise_layout`) -/
+theorem file_created_as_denoted (cfg : Cfg) (text : String) (rs : List RuleSrc) (hne : rs ≠ [])
+    (hok : srcsOk cfg [] rs = true) (htok : tokenise text = .ok (rs.flatMap ruleSrcToks)) :
+    createRules cfg [text] [] [] = .ok (denote cfg [] rs) := by
+  simp only [createRules, parseText, bind, Except.bind, htok, parseTokens_file cfg rs hne hok]
+  rfl
+
+/-- non-vacuity: three rules, the third below the second which is below the first; fungal
+    multipliers 1/2 and 3/2 -/
+def exSrcs : List RuleSrc :=
+  [⟨"r1", "cat", 20, 5, [], .one (.one (.id false "a"))⟩,
+   ⟨"r2", "cat", 15, 10, ["r1"], .or (.one (.id false "a")) (.one (.and (.id false "b") (.one (.id true "c"))))⟩,
+   ⟨"r3", "cat", 1, 3, ["r2"], .one (.one (.id false "c"))⟩]
+def exMulCfg : Cfg := { sigs := ["a", "b", "c"], cats := ["cat"], cutoffMul := (1, 2), nbhMul := (3, 2) }
+example : srcsOk exMulCfg [] exSrcs = true := by decide +kernel
+example : (tokenise ("RULE r1 CATEGORY cat CUTOFF 20 NEIGHBOURHOOD 5 CONDITIONS a # first\n" ++
+    "RULE r2 CATEGORY cat SUPERIORS r1 CUTOFF 15 NEIGHBOURHOOD 10 CONDITIONS a or b and not c")).toOption
+    = some ((exSrcs.take 2).flatMap ruleSrcToks) := by decide +kernel
+example : (denote exMulCfg [] exSrcs).map (fun r => (r.name, r.cutoff, r.neighbourhood, r.superiors)) =
+    [("r1", 10000, 7500, []), ("r2", 7500, 15000, ["r1"]), ("r3", 500, 4500, ["r1", "r2"])] := by decide +kernel
 
 /-- both directions together: a token string is accepted as CONDITIONS with result `L` only if
     it is the flattening of `L` (`conditions_accepts_only_grammar`), and the flattening of every
